@@ -109,7 +109,9 @@ func ruleImageMethods(c *Ctx) {
 		if fn := c.theFunc(R5, t.recv+".Content"); fn != nil {
 			n := mk(fn)
 			got := n.Norm(returnsOf(fn)[0].Results[0]).String()
-			c.Check(R5, t.recv+".Content", fn.Pos(), got == t.content, t.content, got)
+			// a content kept as []byte is converted on the way out; kept as a string it is returned as it is
+			okC := got == t.content || "Conv:string("+got+")" == t.content
+			c.Check(R5, t.recv+".Content", fn.Pos(), okC, t.content, got)
 		}
 	}
 	// kind strings as the property names them
